@@ -168,6 +168,26 @@ class ExprMixin:
             return ("functable", owner.qual, name)
         if _is_object_call(expr):
             return ("sentinel", owner.qual + "." + name)
+        if isinstance(expr, (ast.Tuple, ast.List)) and expr.elts:
+            # a class-level table whose rows name classes or functions next to constants: a display of known terms
+            def val(v):
+                if isinstance(v, ast.Name) and v.id in owner.methods:
+                    return ("func", owner.methods[v.id])
+                if isinstance(v, ast.Name):
+                    r = self.prog.resolve(owner.module, v.id)
+                    if r and r[0] == "class":
+                        return ("cls", r[1])
+                    if r and r[0] == "func":
+                        return ("func", r[1])
+                if isinstance(v, (ast.Tuple, ast.List)):
+                    xs = [val(x) for x in v.elts]
+                    return None if any(x is None for x in xs) else ("tuple", tuple(xs))
+                ok2, c = self.prog.try_fold(v, owner.module, owner, class_body=True)
+                return const(c) if ok2 and not isinstance(c, (dict, list)) else None
+            if isinstance(expr, ast.Tuple):
+                t = val(expr)
+                if t is not None:
+                    return t
         return ("classattr", owner.qual, name)
 
     def functable(self, t):
@@ -599,7 +619,7 @@ class ExprMixin:
                             self.assume(t, pol, s3)
                             yield "ok", val, s3
                     else:
-                        yield "ok", ("ifexp", a, b), s2
+                        yield "ok", ("ifexp", a, b, t), s2
 
     def e_Tuple(self, n, st, fx):
         for r, ts, s in self.ev_list(n.elts, st, fx):
